@@ -37,6 +37,10 @@ type GenConfig struct {
 	// the same simple name.
 	SharedNamesPct int
 
+	// KindPairPct: chance (percent) that a union starts from two cases of the same JSON datatype class
+	// (enum + integer, string + date, record + record, ...); 0 = cases are drawn independently.
+	KindPairPct int
+
 	// ArgRefPct: chance (percent) that a generic argument is a reference to a non-generic named
 	// type (record, enum, alias) instead of the default mix; 0 keeps the default distribution.
 	ArgRefPct int
@@ -205,9 +209,18 @@ func (g *gen) union(depth int) *Type {
 	*g.unionID++
 	id := *g.unionID
 	tries := 0
+	var pending []*Type
+	if g.cfg.KindPairPct > 0 && g.chance("ukindPair", g.cfg.KindPairPct) {
+		pending = g.kindPair(explicit)
+	}
 	for len(u.Cases) < n+btoi(withNull) && tries < 40 {
 		tries++
-		c := g.scalarForUnionCase(depth, explicit)
+		var c *Type
+		if len(pending) > 0 {
+			c, pending = pending[0], pending[1:]
+		} else {
+			c = g.scalarForUnionCase(depth, explicit)
+		}
 		if c.Kind == KParam && g.cfg.excluded("union-with-param-case") {
 			continue
 		}
@@ -240,6 +253,60 @@ func (g *gen) union(depth int) *Type {
 		return g.prim()
 	}
 	return u
+}
+
+// kindPair: two case types that have (or may have) the same JSON datatype, the situation that
+// decides between the tagged and the untagged NDJSON form of a union.
+func (g *gen) kindPair(explicit bool) []*Type {
+	var enums, flags, recs []*Type
+	for _, sd := range g.avail {
+		if len(sd.def.TypeParams) > 0 {
+			continue
+		}
+		r := Ref(sd.ns, sd.def.Name)
+		switch sd.def.Kind {
+		case DEnum:
+			enums = append(enums, r)
+		case DFlags:
+			flags = append(flags, r)
+		case DRecord:
+			recs = append(recs, r)
+		}
+	}
+	ints := []string{"int32", "uint8", "int64", "uint16"}
+	pick := func(ts []*Type, label string) *Type { return ts[g.intn(label, len(ts))] }
+	for tries := 0; tries < 4; tries++ {
+		switch g.intn("kindRecipe", 7) {
+		case 0:
+			if len(enums) > 0 {
+				return []*Type{pick(enums, "kpEnum"), Prim(ints[g.intn("kpInt", len(ints))])}
+			}
+		case 1:
+			if len(enums) > 0 {
+				return []*Type{pick(enums, "kpEnum2"), Prim("string")}
+			}
+		case 2:
+			if len(flags) > 0 && !g.cfg.excluded("union-flags-with-number") {
+				return []*Type{pick(flags, "kpFlags"), Prim("float64")}
+			}
+		case 3:
+			return []*Type{Prim("string"), Prim([]string{"date", "time", "datetime"}[g.intn("kpChrono", 3)])}
+		case 4:
+			return []*Type{Prim(ints[g.intn("kpInt2", len(ints))]), Prim([]string{"float32", "float64"}[g.intn("kpFloat", 2)])}
+		case 5:
+			if len(recs) > 1 {
+				a, b := pick(recs, "kpRecA"), pick(recs, "kpRecB")
+				if a.Name != b.Name || a.Ns != b.Ns {
+					return []*Type{a, b}
+				}
+			}
+		default:
+			if explicit {
+				return []*Type{Vector(Prim("int32")), FixedVector(Prim("float64"), 2)}
+			}
+		}
+	}
+	return nil
 }
 
 func derivedTag(c *Type) string {
